@@ -57,6 +57,18 @@ Definition lc_step (m : list (Z * phase)) (e : ev) : option (list (Z * phase)) :
 
 Definition lifecycle_ok (t : list ev) : bool := check lc_step [] t.
 
+(* ... and between events the registry holds exactly the connections that are open *)
+Definition count_open (m : list (Z * phase)) : Z :=
+  zlen (filter (fun kv => match snd kv with POpen => true | _ => false end) m).
+
+Definition count_step (m : list (Z * phase)) (e : ev) : option (list (Z * phase)) :=
+  match e with
+  | EOut ("g", [ASym "count"; AInt n; _]) => if n =? count_open m then Some m else None
+  | _ => lc_step m e
+  end.
+
+Definition count_ok (t : list ev) : bool := check count_step [] t.
+
 (* ------------------------------------------------------------------ *)
 (* C07: every system call of the loop names a descriptor the framework owns.
    The ledger: descriptors handed to the loop (accept results, sockets coming with
@@ -335,6 +347,11 @@ Definition statics (i : list line) : list Z :=
   | Some w => l_efd (st w) :: map fst (l_listeners (st w))
   end.
 
+(* the run never ends for lack of fuel: the bound S (length input) suffices *)
+Definition is_fuel_desync (e : ev) : bool :=
+  match e with EOut ("desync", [ASym s]) => sym_eqb s "fuel" | _ => false end.
+Definition fuel_ok (t : list ev) : bool := negb (existsb is_fuel_desync t).
+
 (* runner used by the correspondence check: the loop's observable output followed by
    the verdict of every checker on the model's own history (the implementation side
    prints the constant verdict 1, so a checker that rejects a real run shows up as a
@@ -349,5 +366,7 @@ Definition run_loop_chk : runner := fun i =>
        obs "chk" [ASym "inbound"; bool_arg (inbound_ok t)];
        obs "chk" [ASym "outbound"; bool_arg (outbound_ok t)];
        obs "chk" [ASym "udp"; bool_arg (udp_ok (statics i) t)];
-       obs "chk" [ASym "fault"; bool_arg (fault_ok t)]]
+       obs "chk" [ASym "fault"; bool_arg (fault_ok t)];
+       obs "chk" [ASym "count"; bool_arg (count_ok t)];
+       obs "chk" [ASym "fuel"; bool_arg (fuel_ok t)]]
   end.
